@@ -314,6 +314,33 @@ def canonical_branches(tree: ast.AST, _rounds: int = 3) -> ast.AST:
             return node
     tree = _Canon().visit(tree)
 
+    # `if X: …; continue / break / return / raise` followed by `else: B` is the same `if` followed by B
+    def _exits(body) -> bool:
+        last = body[-1] if body else None
+        if isinstance(last, (ast.Continue, ast.Break, ast.Return, ast.Raise)):
+            return True
+        return isinstance(last, ast.If) and bool(last.orelse) and _exits(last.body) and _exits(last.orelse)
+
+    def unwrap_else(body: List[ast.stmt]) -> List[ast.stmt]:
+        out: List[ast.stmt] = []
+        for st in body:
+            if isinstance(st, ast.If) and st.orelse and _exits(st.body) and not (len(st.orelse) == 1 and isinstance(st.orelse[0], ast.If) and False):
+                rest = st.orelse
+                st.orelse = []
+                out.append(st)
+                out.extend(unwrap_else(rest))
+            else:
+                out.append(st)
+        return out
+    for node in ast.walk(tree):
+        for fld in ("body", "orelse", "finalbody"):
+            b = getattr(node, fld, None)
+            if isinstance(b, list) and b and isinstance(b[0], ast.stmt) and not isinstance(node, (ast.Module, ast.ClassDef)):
+                setattr(node, fld, unwrap_else(b))
+        if isinstance(node, ast.Try):
+            for h in node.handlers:
+                h.body = unwrap_else(h.body)
+
     # `for t in E: yield t` is `yield from E` (nothing in the package sends or throws into its generators)
     class _YieldFrom(ast.NodeTransformer):
         def visit_For(self, node: ast.For):
